@@ -56,6 +56,19 @@ CLAIMED['C05'] = dict(
     technique="Lean 4 theorems (iff characterisation, complete trust table) + source-extracted bridge + exhaustive status sequences + real gpg",
     ref='§7 C05')
 
+CLAIMED['C17'] = dict(
+    text=("Lean theorems: for every hash object obeying the streaming law, every schedule of non-empty reads, every size hint and "
+          "every value of the two thresholds, hash_file finalises the state after feeding the complete content once "
+          "(C17_any_schedule, both the slurp and the chunked branch; C17_size for the size pseudo-hash; C17_schedule_independent); "
+          "the ten GLEP 74 names resolve to distinct algorithms and any other name is reported unsupported (C17_resolve_ok, "
+          "C17_unknown_name_reported). Tie: Bridge.Hash re-proves the name table = GLEP 74's, thresholds > 0 and the shape of "
+          "hash_file / get_hash_by_name / SizeHash / the call site from the current source; differential runs with exact chunk control, "
+          "a real BufferedReader over a short-reading raw stream and real files, against one-shot hashlib and coreutils; the bytes the "
+          "model feeds (identity hash) must hash to what the implementation returned."),
+    note=TB + "hashlib objects are modelled by their streaming law (a hypothesis of the theorem); that hashlib's md5 is MD5 is checked against coreutils only. XOFs (shake_*) are outside the property.",
+    technique="Lean 4 theorem parametric in hash object, thresholds and read schedule + source-shape bridge + differential schedules",
+    ref='§7 C17')
+
 PENDING = ['C01', 'C02', 'C03', 'C04', 'C05', 'C06', 'C07', 'C08', 'C10', 'C11', 'C12', 'C13', 'C14', 'C15', 'C16',
            'C17', 'C18', 'C19', 'C20']
 
